@@ -369,7 +369,7 @@ def expand_rn(tpl):
 
 def process(unit_name, tpl_path=None, out_dir=None):
     tpl_path = tpl_path or os.path.join(VERIF, 'units', unit_name + '.rs.tpl')
-    out_dir = out_dir or os.path.join(VERIF, 'build')
+    out_dir = out_dir or os.environ.get('VERIF_BUILD_DIR') or os.path.join(VERIF, 'build')
     os.makedirs(out_dir, exist_ok=True)
     unit = Unit(unit_name)
     tpl = open(tpl_path).read()
